@@ -144,6 +144,13 @@ func (t *translator) extract2(g *fn) {
 				if render(c.Lhs[0]) == ex.Target {
 					cands = append(cands, exCand{expr: c.Rhs[0]})
 				}
+			} else if ex.Kind == "assign" && len(c.Lhs) > 1 && (c.Tok == token.ASSIGN || c.Tok == token.DEFINE) {
+				// v, ok := m[k] / v, ok := x.(T) / a, b := f(x) / a, b = x, y: the value the target has after the statement
+				for _, l := range c.Lhs {
+					if id, isID := l.(*ast.Ident); isID && id.Name == ex.Target {
+						cands = append(cands, exCand{stmt: c})
+					}
+				}
 			}
 		case *ast.KeyValueExpr:
 			if id, ok := c.Key.(*ast.Ident); ok && ex.Kind == "assign" && id.Name == ex.Target {
@@ -276,6 +283,34 @@ func (t *translator) extract2(g *fn) {
 		body = ft.cond(hit.expr, e, func(env) node { return nLeaf{ft.okTerm("true")} }, func(env) node { return nLeaf{ft.okTerm("false")} })
 		what = ex.Kind + "-condition number " + strconv.Itoa(ex.Nth)
 	case "assign", "arg", "return":
+		if hit.stmt != nil {
+			// a statement with several left-hand sides: translated as a statement, the target read afterwards
+			as := hit.stmt.(*ast.AssignStmt)
+			var tobj *ast.Object
+			for _, l := range as.Lhs {
+				if id, isID := l.(*ast.Ident); isID && id.Name == ex.Target {
+					tobj = id.Obj
+				}
+			}
+			if tobj == nil {
+				failf("extract: the target %s of the assignment is not a variable of the function", ex.Target)
+			}
+			var tp string
+			body = ft.block([]ast.Stmt{as}, e, func(e2 env) node {
+				b, ok := e2[tobj]
+				if !ok || b.kind != bVar {
+					failf("extract: %s has no plain value after the statement (a result guarded by an untested error?)", ex.Target)
+				}
+				tp = b.typ
+				return nLeaf{ft.okTerm(b.lean)}
+			})
+			if tp == "" {
+				failf("extract: the type of %s is not known", ex.Target)
+			}
+			rt = opt(t.leanType(tp))
+			what = "value of " + ex.Target + " after assignment number " + strconv.Itoa(ex.Nth) + " to it"
+			break
+		}
 		var pre []prelude
 		v := ft.expr(hit.expr, e, &pre)
 		if v.opt != nil || v.multi != nil || v.t == "" || v.t == "nil" || v.t == "nonnil" || v.t == "errflag" {
